@@ -351,7 +351,21 @@ fn check_inner(spec: &CheckSpec, tier: Tier) -> i32 {
                             }
                             local.sigs.extend(rep.sigs.iter().copied());
                             if i < 3 {
-                                local.samples.push((i, rep.sample.clone()));
+                                let ev: Vec<String> = rep
+                                    .events
+                                    .iter()
+                                    .take(40)
+                                    .map(|(s, a, b)| format!("{s}({a},{b})"))
+                                    .collect();
+                                local.samples.push((
+                                    i,
+                                    format!(
+                                        "{} || first events: {} || choices drawn: {}",
+                                        rep.sample,
+                                        ev.join(" "),
+                                        rep.trace.len()
+                                    ),
+                                ));
                             }
                             let mut unknown = false;
                             for v in &rep.violations {
